@@ -50,7 +50,26 @@ def c04_jobs(tier):
     return [sim("c04-phases", "c04", require_counters=["expiry_measured_by_blocked_pull", "expiry_measured_by_stream", "probe_before_deadline_empty", "probe_after_slack_returned", "second_expiry_observed"])]
 
 
+def c05_jobs(tier):
+    return [sim("c05-grid", "c05", require_counters=["modifications", "nacks", "parked_consumer_woken_by_nack", "probe.new-1ms.returned", "probe.new+slack.returned"]),
+            sim("c05-alphabet", "c02", params={"random": 0}, require_nontrivial=False)]
+
+
+def c17_jobs(tier):
+    return [sim("c17-hostile", "c17", require_counters=["hostile_requests_answered"])]
+
+
 PROPERTIES = {
+    "C17": {"level": "exploration", "jobs": c17_jobs, "engine": "dvsim",
+            "technique": "runtime monitoring with structured hostile-input generators: every answer judged (status, no panic/hang), full observable state compared with the reference model after every rejection",
+            "level_text": "Thousands of sequential episodes send 20-30 requests with one corrupted field (or a pair) to a populated server: hostile and near-miss resource names in every RPC, boundary integers, ack-ID batches with one bad element at each position, hostile page tokens, unsupported push endpoints, malformed StreamingPull first and control messages. The monitor requires a gRPC status for each (never a panic, hang, UNKNOWN/INTERNAL or transport error), INVALID_ARGUMENT where C05/C13/C18 pin it, and after every error answer the hook stats of every subscription and all listings must equal the reference model's untouched state; at the end every subscription must still redeliver exactly the model's messages and a fresh round trip must work. Inputs are sampled from generators, so this is exploration.",
+            "level_note": SIM_NOTE + " INVALID_ARGUMENT is demanded only where a property pins it; elsewhere any ordinary status is admitted.",
+            "assumptions": ["sequential episodes: statuses that only a race with a deletion can produce do not occur"]},
+    "C05": {"level": "exploration", "jobs": c05_jobs, "engine": "dvsim",
+            "technique": "runtime monitoring on a virtual clock against the reference model: boundary-value grid for N, probes around old and new deadlines, request-atomicity probes after rejections, unary and streaming paths",
+            "level_text": "For N over the boundary classes (1, 9, 10, 11, 30, 599, 600, 601, 100000, i32::MAX), three modification instants and both the unary RPC and the StreamingPull control message, the modified lease is probed 1 ms before and just after its new deadline and at its old one; N=0 is checked by probe and with a parked consumer; negative N and malformed ack IDs at every position of a batch must answer INVALID_ARGUMENT and leave both leases on their original deadlines; unknown and stale IDs must have no effect. Random histories and the exhaustive C02 alphabet (which contains nack and modify) add sequences. The grid is enumerated completely; the i32 range and histories are sampled by class.",
+            "level_note": SIM_NOTE,
+            "assumptions": ["'malformed ack ID' = a string the server cannot have issued: empty, letters, embedded spaces, 26-digit numbers, full-width digits, negative or fractional numerals"]},
     "C04": {"level": "exploration", "jobs": c04_jobs, "engine": "dvsim",
             "technique": "runtime monitoring on a virtual clock: phase-aligned deadline probes (epoch hook) and parked consumers measuring the real expiry instant, checked against the reference model",
             "level_text": "The hand-out instant is placed at every millisecond phase 0..99 of the server's 100 ms rounding grid (through the epoch hook) for each ack_deadline_seconds value and each consumer kind (probe pulls, a parked blocking pull, an open stream); the lease is probed 1 ms before its deadline (must be absent) and just after deadline + 999 ms (must be present), a parked consumer measures the real expiry instant (min/max lateness reported), and the old ack id is shown to be inert across a second expiry. Random histories add coexisting leases with different deadlines. Exhaustive at millisecond granularity over the stated values; other values and longer histories are sampled.",
